@@ -1,7 +1,8 @@
 """C02 — generated message and enum classes are wire-compatible with the input descriptors (DESIGN §7.2).
 
-A case is a *file set* of one proto package (1..3 files, all of them targets) described by a small JSON
-spec; descriptors are built from the spec exactly as protoc would lay them out.  Per case:
+A case is a *file set* of one API package (1..3 files, all of them targets; a file may lie in a SUB-PACKAGE of the
+API package: f["sub"]) described by a small JSON spec; descriptors are built from the spec exactly as protoc would lay
+them out.  Per case:
   T2   real Field.name / proto_type / oneof / map, Address.rel / __str__ / module_alias / python_import
        and EnumType values  vs  the Lean model (ops c02.names, c02.rel, c02.tables, c02.enum);
   T3   the library is generated, imported in a fresh interpreter (libhost op `types_session`), the RUN-TIME
@@ -85,6 +86,9 @@ def ask(ctx, ops):
             time.sleep(3)
 
 
+# sub-packages of the target package (<api package>.<sub>): their files are rendered through the `%sub` directory of the
+# templates into <root>/<sub>/types/<file>.py; some names are also file / field names (module-name collisions)
+SUB_NAMES = ["catalog", "common", "shared", "item", "kind", "alpha", "admin_v2"]
 DEP_PACKAGE = "acme.dep.v1"
 DEP_FILE_NAMES = ["shared", "common", "item", "dep_types", "value"]
 
@@ -97,7 +101,7 @@ def ext_lookup(spec, ref):
         ds = symbols(d)
         if ref in ds:
             x = ds[ref]
-            return {"kind": x["kind"], "proto": proto_path(d, {"name": x["file"]}), "package": d["package"], "path": x["path"],
+            return {"kind": x["kind"], "proto": proto_path(d, x), "package": x["package"], "path": x["path"],
                     "proto_plus": True, "module": x["file"],
                     "field_refs": [fl.get("ref") for fl in x["spec"]["fields"] if fl.get("ref")] if x["kind"] == "message" else [],
                     "has_map": x["kind"] == "message" and any(fl["card"] == "map" for fl in x["spec"]["fields"])}
@@ -114,8 +118,23 @@ def in_proto_plus_package(spec, full):
 
 # --------------------------------------------------------------------------------------------- spec → descriptors
 
+def file_pkg(spec, f):
+    """proto package of one file: the package of the spec (the API's package) or a SUB-PACKAGE of it (f["sub"], dotted)"""
+    return spec["package"] + ("." + f["sub"] if f.get("sub") else "")
+
+
+def fkey(f):
+    """identity of a file (or of the file of a symbol) inside a spec: two files of different sub-packages may share a name"""
+    return (f.get("sub") or "", f.get("file", f.get("name")))
+
+
 def proto_path(spec, f):
-    return spec["package"].replace(".", "/") + "/" + f["name"] + ".proto"
+    return file_pkg(spec, f).replace(".", "/") + "/" + f.get("file", f.get("name")) + ".proto"
+
+
+def py_types_package(pypkg, sub):
+    """python package holding the types modules of a (sub-)package: <root>[.<sub>].types"""
+    return pypkg + ("." + sub if sub else "") + ".types"
 
 
 def map_entry_name(field_name):
@@ -133,14 +152,19 @@ def map_entry_name(field_name):
 
 
 def symbols(spec):
-    """full name -> {kind, file, path}; messages and enums of the target package (map entries excluded)"""
+    """full name -> {kind, file, sub, package, path}; messages and enums of the target package and its sub-packages
+    (map entries excluded)"""
     out = {}
     for f in spec["files"]:
+        fp, sub = file_pkg(spec, f), f.get("sub") or ""
+
         def walk(msgs, enums, path):
             for e in enums:
-                out[".".join([spec["package"]] + path + [e["name"]])] = {"kind": "enum", "file": f["name"], "path": path + [e["name"]], "spec": e}
+                out[".".join([fp] + path + [e["name"]])] = {"kind": "enum", "file": f["name"], "sub": sub, "package": fp,
+                                                            "path": path + [e["name"]], "spec": e}
             for m in msgs:
-                out[".".join([spec["package"]] + path + [m["name"]])] = {"kind": "message", "file": f["name"], "path": path + [m["name"]], "spec": m}
+                out[".".join([fp] + path + [m["name"]])] = {"kind": "message", "file": f["name"], "sub": sub, "package": fp,
+                                                            "path": path + [m["name"]], "spec": m}
                 walk(m.get("messages", []), m.get("enums", []), path + [m["name"]])
         walk(f["messages"], f["enums"], [])
     return out
@@ -197,15 +221,15 @@ def build_files(spec):
     syms = symbols(spec)
     out = []
     for f in spec["files"]:
-        pb = dp.FileDescriptorProto(name=proto_path(spec, f), package=spec["package"], syntax="proto3")
+        pb = dp.FileDescriptorProto(name=proto_path(spec, f), package=file_pkg(spec, f), syntax="proto3")
         deps = []
 
         def note(ref):
             if ref is None:
                 return
             if ref in syms:
-                if syms[ref]["file"] != f["name"]:
-                    d = proto_path(spec, {"name": syms[ref]["file"]})
+                if fkey(syms[ref]) != fkey(f):
+                    d = proto_path(spec, syms[ref])
                     if d not in deps:
                         deps.append(d)
             else:
@@ -223,7 +247,7 @@ def build_files(spec):
         for e in f["enums"]:
             _enum_pb(e, pb.enum_type.add())
         for m in f["messages"]:
-            _msg_pb(m, pb.message_type.add(), spec["package"] + "." + m["name"])
+            _msg_pb(m, pb.message_type.add(), file_pkg(spec, f) + "." + m["name"])
         out.append(pb)
     return out
 
@@ -273,8 +297,44 @@ def all_msgs(m, path):
         yield from all_msgs(n, path + [m["name"]])
 
 
-def gen_spec(r, big=False, pkg=None, fnames=None, with_dep=None):
+def gen_subs(r, fnames):
+    """sub-package of each file ("" = the API's own package): at least one file stays in the root package (the API package
+    is the common prefix of the target files' packages), at least one goes to a sub-package one or two levels down; with
+    some probability a sub-package file takes the NAME of a file of another (sub-)package (same module name twice)"""
+    n = len(fnames)
+    a, b, c = r.sample(SUB_NAMES, 3)
+    # one, two or three levels below the API package; an intermediate level may or may not hold files of its own; siblings
+    # under one parent (nested sub-packages were never rendered before cc7f824: corpus/C02/nested_sub_package.json)
+    roll = r.random()
+    if roll < 0.4:
+        choices = [a, a, b]
+    elif roll < 0.75:
+        choices = [a, f"{a}.{b}", f"{a}.{b}", r.pick([b, f"{a}.{c}"])]
+    else:
+        choices = [a, f"{a}.{b}", f"{a}.{b}.{c}", f"{a}.{b}.{c}", r.pick([c, f"{a}.{c}"])]
+    subs = [r.pick(choices) if r.maybe(0.6) else "" for _ in range(n)]
+    root_at = r.randrange(n)
+    subs[root_at] = ""
+    if not any(subs):
+        subs[r.pick([i for i in range(n) if i != root_at])] = r.pick(choices)
+    fnames = list(fnames)
+    for i in range(n):
+        if subs[i] and r.maybe(0.3):
+            others = [fnames[j] for j in range(n) if j != i and subs[j] != subs[i]]
+            cand = [x for x in others if (subs[i], x) not in {(subs[j], fnames[j]) for j in range(n) if j != i}]
+            if cand:
+                fnames[i] = r.pick(cand)
+    # a file refers to EARLIER files only; with the files grouped by package in a random order of the packages the
+    # reference graph between the packages (root and sub-packages) is acyclic in a random direction (see the assumptions)
+    pk = sorted(set(subs))
+    r.shuffle(pk)
+    idx = sorted(range(n), key=lambda i: pk.index(subs[i]))
+    return [fnames[i] for i in idx], [subs[i] for i in idx]
+
+
+def gen_spec(r, big=False, pkg=None, fnames=None, with_dep=None, with_subs=None):
     dep = None
+    subs = None
     if pkg is None:
         pkg = r.pick(PACKAGES)
         if with_dep is None:
@@ -285,10 +345,20 @@ def gen_spec(r, big=False, pkg=None, fnames=None, with_dep=None):
     if fnames is None:
         nfiles = r.pick([1, 2, 2, 3])
         fnames = r.sample(FILE_NAMES, nfiles)
+        if with_subs is None:
+            with_subs = r.maybe(0.4)
+        if with_subs and pkg != DEP_PACKAGE:
+            if nfiles == 1 or (nfiles < 4 and r.maybe(0.5)):        # room for several packages
+                fnames = fnames + r.sample([x for x in FILE_NAMES if x not in fnames], 1 if nfiles > 1 else r.pick([1, 2]))
+            fnames, subs = gen_subs(r, fnames)
     files = []
-    used_top = set()
-    for fn in fnames:
+    used_by_pkg = {}
+    for idx, fn in enumerate(fnames):
         f = {"name": fn, "enums": [], "messages": []}
+        if subs and subs[idx]:
+            f["sub"] = subs[idx]
+        # top-level names are unique per proto package: a sub-package may reuse a name of the root package
+        used_top = used_by_pkg.setdefault(f.get("sub", ""), set())
         for _ in range(r.randint(0, 2)):
             cands = [n for n in TOP_NAMES if n not in used_top]
             if len(cands) < 3:
@@ -314,16 +384,17 @@ def gen_spec(r, big=False, pkg=None, fnames=None, with_dep=None):
         ext_msgs = dm * 3 + ext_msgs
         ext_enums = de * 3 + ext_enums
     syms = symbols(spec)
-    order = {f["name"]: i for i, f in enumerate(files)}
+    order = {fkey(f): i for i, f in enumerate(files)}
     for fi, f in enumerate(files):
-        local_m = [k for k, v in syms.items() if v["kind"] == "message" and v["file"] == f["name"]]
-        local_e = [k for k, v in syms.items() if v["kind"] == "enum" and v["file"] == f["name"]]
-        earlier_m = [k for k, v in syms.items() if v["kind"] == "message" and order[v["file"]] < fi]
-        earlier_e = [k for k, v in syms.items() if v["kind"] == "enum" and order[v["file"]] < fi]
+        fp = file_pkg(spec, f)
+        local_m = [k for k, v in syms.items() if v["kind"] == "message" and fkey(v) == fkey(f)]
+        local_e = [k for k, v in syms.items() if v["kind"] == "enum" and fkey(v) == fkey(f)]
+        earlier_m = [k for k, v in syms.items() if v["kind"] == "message" and order[fkey(v)] < fi]
+        earlier_e = [k for k, v in syms.items() if v["kind"] == "enum" and order[fkey(v)] < fi]
         for top in f["messages"]:
             for m, path in all_msgs(top, []):
-                full = ".".join([pkg] + path)
-                fill_fields(r, m, full, path, local_m, local_e, earlier_m, earlier_e, ext_msgs, ext_enums, big, syms, pkg)
+                full = ".".join([fp] + path)
+                fill_fields(r, m, full, path, local_m, local_e, earlier_m, earlier_e, ext_msgs, ext_enums, big, syms, fp)
     while True:
         try:
             context_cost(spec, 9000)
@@ -546,6 +617,84 @@ def layout_spec():
                                                 {"name": "alpha", "enums": [], "messages": [order]}]}
 
 
+def subpackage_spec():
+    """deterministic: an API whose files live in the API package AND in sub-packages of it, one to three levels down (the `%sub` directory of the
+    templates, `proto.module(package=<package of the file>, marshal=<API package>)`): references root -> sub, sub -> root,
+    sub -> other sub (no cycle between packages), self / forward / nested references inside a sub-package, the same top-level type names (Item, Kind)
+    and the same module name (item) in the root package and in a sub-package, a map and a oneof over sub-package types,
+    a module of a sub-package named like a module of the proto-plus dependency package (shared)"""
+    P, D = "acme.lib.v1", DEP_PACKAGE
+    C, M = P + ".catalog", P + ".common"
+
+    def msg(name, fields=(), messages=(), enums=(), oneofs=()):
+        return {"name": name, "oneofs": list(oneofs), "fields": list(fields), "messages": list(messages), "enums": list(enums)}
+
+    def fld(name, number, type, card="single", ref=None, key=None):
+        d = {"name": name, "number": number, "card": card, "type": type}
+        if ref:
+            d["ref"] = ref
+        if key:
+            d["key"] = key
+        return d
+    dep = {"package": D, "files": [{"name": "shared", "enums": [], "messages": [msg("Item", [fld("label", 1, "string")])]}]}
+    root_item = {"name": "item", "enums": [{"name": "Kind", "values": [["KIND_UNSPECIFIED", 0], ["KIND_A", 1]]}],
+                 "messages": [msg("Item", [fld("id", 1, "string"), fld("detail", 2, "message", ref=f"{P}.Item.Detail")],
+                              [msg("Detail", [fld("qty", 1, "int64")])])]}
+    cat_item = {"name": "item", "sub": "catalog",
+                "enums": [{"name": "Kind", "values": [["KIND_UNSPECIFIED", 0], ["KIND_TOY", 2], ["KIND_BOOK", 1]]}],
+                "messages": [
+                    msg("Item", [fld("sku", 1, "string"), fld("kind", 2, "enum", ref=f"{C}.Kind"),
+                                 fld("dimensions", 5, "message", ref=f"{C}.Item.Dimensions"),
+                                 fld("parts", 6, "message", "repeated", ref=f"{C}.Item"), fld("bundle", 7, "message", ref=f"{C}.Bundle"),
+                                 fld("by_kind", 8, "enum", "map", ref=f"{C}.Kind", key="string"), fld("type", 10, "string")],
+                        [msg("Dimensions", [fld("width", 1, "sint32"), fld("height", 2, "sint32"),
+                                            fld("of", 3, "message", ref=f"{C}.Item")])]),
+                    msg("Bundle", [fld("title", 1, "string"), fld("items", 2, "message", "repeated", ref=f"{C}.Item"),
+                                   fld("unit_price", 3, "sint64", "optional")])]}
+    common = {"name": "shared", "sub": "common", "enums": [],
+              "messages": [msg("Money", [fld("units", 1, "int64"), fld("currency", 2, "string")]),
+                           msg("Range", [fld("lo", 1, "message", ref=f"{M}.Money"), fld("hi", 2, "message", ref=f"{M}.Money"),
+                                         fld("item", 3, "message", ref=f"{C}.Item"), fld("from", 4, "message", ref=f"{D}.Item")])]}
+    alpha = {"name": "alpha", "enums": [],
+             "messages": [msg("Order", [fld("id", 1, "string"), fld("items", 2, "message", "repeated", ref=f"{C}.Item"),
+                                        fld("total", 3, "message", ref=f"{M}.Money"),
+                                        fld("kinds", 4, "enum", "map", ref=f"{C}.Kind", key="int32"),
+                                        fld("bundle", 5, "message", "oneof:pick", ref=f"{C}.Bundle"),
+                                        fld("plain", 6, "message", "oneof:pick", ref=f"{P}.Item"),
+                                        fld("dims", 7, "message", "optional", ref=f"{C}.Item.Dimensions"),
+                                        fld("ranges", 8, "message", "map", ref=f"{M}.Range", key="string"),
+                                        fld("dep_item", 9, "message", ref=f"{D}.Item")], oneofs=["pick"])]}
+    # the package-level reference graph is acyclic (see the assumptions): admin -> root -> common -> catalog
+    admin = {"name": "policy", "sub": "admin", "enums": [],
+             "messages": [msg("Policy", [fld("item", 1, "message", ref=f"{P}.Item"), fld("kind", 2, "enum", "repeated", ref=f"{P}.Kind"),
+                                         fld("detail", 3, "message", "optional", ref=f"{P}.Item.Detail"),
+                                         fld("cat_item", 4, "message", ref=f"{C}.Item"), fld("order", 5, "message", ref=f"{P}.Order"),
+                                         fld("own", 6, "message", ref=f"{P}.admin.Policy.Item")],
+                              [msg("Item", [fld("up", 1, "message", ref=f"{P}.admin.Policy"), fld("root", 2, "message", ref=f"{P}.Item")])])]}
+    # nested sub-packages: catalog.parts (two levels, its parent has files), ops.internal.audit (three levels, the level
+    # `ops.internal` has no file); parent -> child, descendant -> ancestor, deep -> root, cousin and sub -> deep references:
+    #   admin -> {root, ops.internal.audit};  ops.internal.audit -> {ops, root, catalog.parts};  catalog -> catalog.parts
+    R, A = C + ".parts", P + ".ops.internal.audit"
+    cat_item["messages"][0]["fields"] += [fld("main_part", 11, "message", ref=f"{R}.Item"),
+                                          fld("part_kinds", 12, "enum", "map", ref=f"{R}.Item.Kind", key="uint32")]
+    parts = {"name": "item", "sub": "catalog.parts", "enums": [],
+             "messages": [msg("Item", [fld("number", 1, "string"), fld("kind", 2, "enum", ref=f"{R}.Item.Kind"),
+                                       fld("spare", 3, "message", "repeated", ref=f"{R}.Item"), fld("class", 4, "string", "optional")],
+                              enums=[{"name": "Kind", "values": [["KIND_UNSPECIFIED", 0], ["KIND_SCREW", 1]]}])]}
+    ops = {"name": "shared", "sub": "ops", "enums": [{"name": "Level", "values": [["LEVEL_UNSPECIFIED", 0], ["LEVEL_HIGH", 5]]}],
+           "messages": [msg("Op", [fld("name", 1, "string"), fld("level", 2, "enum", ref=f"{P}.ops.Level")])]}
+    audit = {"name": "entry", "sub": "ops.internal.audit", "enums": [],
+             "messages": [msg("Entry", [fld("op", 1, "message", ref=f"{P}.ops.Op"), fld("level", 2, "enum", "optional", ref=f"{P}.ops.Level"),
+                                        fld("item", 3, "message", ref=f"{P}.Item"), fld("part", 4, "message", "oneof:what", ref=f"{R}.Item"),
+                                        fld("order", 5, "message", "oneof:what", ref=f"{P}.Order"),
+                                        fld("trail", 6, "message", "map", ref=f"{A}.Entry.Step", key="int64"),
+                                        fld("next", 7, "message", ref=f"{A}.Entry")],
+                              [msg("Step", [fld("at", 1, "message", ref="google.protobuf.Timestamp"), fld("parent", 2, "message", ref=f"{A}.Entry")])],
+                              oneofs=["what"])]}
+    admin["messages"][0]["fields"] += [fld("last_entry", 7, "message", ref=f"{A}.Entry"), fld("steps", 8, "message", "repeated", ref=f"{A}.Entry.Step")]
+    return {"package": P, "dep": dep, "files": [root_item, parts, cat_item, common, alpha, ops, audit, admin]}
+
+
 # --------------------------------------------------------------------------------------------- the §9-F9 shape
 # (repaired in /repo by 92701a6: such references are now printed as quoted full paths; the corpus entries under
 #  corpus/C02/nested_ref_*.json are regression inputs that must pass; the shape is only counted in the evidence)
@@ -560,7 +709,7 @@ def shadow_refs(spec):
             continue
         for fl in s["spec"]["fields"]:
             t = syms.get(fl.get("ref"))
-            if t is None or t["file"] != s["file"] or len(t["path"]) < 2:
+            if t is None or fkey(t) != fkey(s) or len(t["path"]) < 2:
                 continue
             if t["path"][0] == s["path"][-1] and t["path"][0] != s["path"][0]:
                 out.append((full, fl["name"], ".".join(t["path"][1:])))
@@ -603,7 +752,7 @@ def model_target(spec, syms, ref):
         return None
     if ref in syms:
         s = syms[ref]
-        return {"enum": s["kind"] == "enum", "package": spec["package"].split("."), "module": s["file"],
+        return {"enum": s["kind"] == "enum", "package": s["package"].split("."), "module": s["file"],
                 "parent": s["path"][:-1], "name": s["path"][-1], "proto_plus": True}
     x = ext_lookup(spec, ref)
     return {"enum": x["kind"] == "enum", "package": x["package"].split("."), "module": x["module"],
@@ -615,7 +764,7 @@ def model_field(spec, syms, full, fl):
     if fl["card"] == "map":
         en = map_entry_name(fl["name"])
         path = syms[full]["path"]
-        entry_t = {"enum": False, "package": spec["package"].split("."), "module": syms[full]["file"],
+        entry_t = {"enum": False, "package": syms[full]["package"].split("."), "module": syms[full]["file"],
                    "parent": path, "name": en, "proto_plus": True}
         return {"name": fl["name"], "number": fl["number"], "type": 11, "repeated": True, "optional": False, "oneof": None,
                 "target": entry_t, "entry": {"ktype": T[fl["key"]], "vtype": T[fl["type"]], "vtarget": tgt}}
@@ -642,12 +791,12 @@ def file_collisions(spec, f):
         if ref is None:
             return
         if ref in syms:
-            mods.setdefault(syms[ref]["file"], set()).add(spec["package"])
+            mods.setdefault(syms[ref]["file"], set()).add(syms[ref]["package"])
         else:
             x = ext_lookup(spec, ref)
             mods.setdefault(x["module"], set()).add(x["package"])
     for full, s in syms.items():
-        if s["file"] != f["name"]:
+        if fkey(s) != fkey(f):
             continue
         names.add(s["path"][-1])
         if s["kind"] == "message":
@@ -667,7 +816,7 @@ def file_collisions(spec, f):
         if ref in syms and syms[ref]["kind"] == "message":
             for fl in syms[ref]["spec"]["fields"]:
                 if fl["card"] == "map":          # the entry message is a field type living in the message's own module
-                    mods.setdefault(syms[ref]["file"], set()).add(spec["package"])
+                    mods.setdefault(syms[ref]["file"], set()).add(syms[ref]["package"])
                 reach(fl.get("ref"))
         elif ref not in syms:
             x = ext_lookup(spec, ref)
@@ -676,10 +825,10 @@ def file_collisions(spec, f):
             for t in x["field_refs"]:
                 reach(t)
     for full, s in syms.items():
-        if s["file"] == f["name"] and s["kind"] == "message":
+        if fkey(s) == fkey(f) and s["kind"] == "message":
             for fl in s["spec"]["fields"]:
                 if fl["card"] == "map":
-                    mods.setdefault(f["name"], set()).add(spec["package"])
+                    mods.setdefault(f["name"], set()).add(file_pkg(spec, f))
                 reach(fl.get("ref"))
     names.update(m for m, pk in mods.items() if len(pk) > 1 or m in RESERVED)
     return sorted(names)
@@ -717,19 +866,20 @@ def exec_order(top, path=()):
 
 def model_module_op(spec, f):
     syms = symbols(spec)
-    pkg = spec["package"]
+    pkg = file_pkg(spec, f)
     types, msgs = [], []
     for full, s in syms.items():
-        if s["file"] == f["name"]:
+        if fkey(s) == fkey(f):
             types.append(s["path"])
     for top in f["messages"]:
         for m, path in exec_order(top):
             full = ".".join([pkg] + path)
             msgs.append({"path": path, "fields": [model_field(spec, syms, full, fl) for fl in m["fields"]]})
-    return {"op": "c02.module", "version": version_of(pkg), "package": pkg.split("."), "module": f["name"],
+    return {"op": "c02.module", "version": version_of(spec["package"]), "package": pkg.split("."), "module": f["name"],
+            "api_package": spec["package"].split("."),
             "collisions": file_collisions(spec, f), "order": [e["name"] for e in f["enums"]] + [m["name"] for m in f["messages"]],
             "top_enums": [e["name"] for e in f["enums"]], "top_messages": [m["name"] for m in f["messages"]],
-            "types": types, "enums": [s["path"] for s in syms.values() if s["file"] == f["name"] and s["kind"] == "enum"],
+            "types": types, "enums": [s["path"] for s in syms.values() if fkey(s) == fkey(f) and s["kind"] == "enum"],
             "messages": msgs}
 
 
@@ -758,10 +908,13 @@ def spec_stats(ctx, spec):
             if ref:
                 if ref in syms:
                     t = syms[ref]
-                    full = ".".join([spec["package"]] + s["path"])
+                    full = ".".join([s["package"]] + s["path"])
                     if ref == full:
                         k = "self"
-                    elif t["file"] != s["file"]:
+                    elif t["sub"] != s["sub"]:
+                        k = "other-file: " + ("sub-package -> root package" if not t["sub"] else "root package -> sub-package"
+                                              if not s["sub"] else "sub-package -> other sub-package")
+                    elif fkey(t) != fkey(s):
                         k = "other-file"
                     elif full.startswith(ref + "."):
                         k = "ancestor"
@@ -776,6 +929,19 @@ def spec_stats(ctx, spec):
         ctx.count("reference", "shadowed-nested-name (repaired 92701a6)")
     ctx.count("nesting_depth", depth)
     ctx.count("files", len(spec["files"]))
+    subs = sorted({f.get("sub") or "" for f in spec["files"]} - {""})
+    ctx.count("sub_packages", len(subs))
+    for sub in subs:
+        ctx.count("sub_package_depth", sub.count(".") + 1)
+    keys = [fkey(f) for f in spec["files"]]
+    if len({k[1] for k in keys}) < len(keys):
+        ctx.count("sub_package_shapes", "same module name in two (sub-)packages")
+    tops = {}
+    for full, s in syms.items():
+        if len(s["path"]) == 1:
+            tops.setdefault(s["path"][0], set()).add(s["package"])
+    if any(len(v) > 1 for v in tops.values()):
+        ctx.count("sub_package_shapes", "same top-level type name in two (sub-)packages")
 
 
 def has_unknown(codec, full, b64):
@@ -861,7 +1027,8 @@ def gen_params(spec):
 
 def run_spec(ctx, r, spec, label, nvals=None):
     ctx.case({"label": label, "package": spec["package"], "files": [f["name"] for f in spec["files"]],
-              "types": len(symbols(spec)), "dep": bool(spec.get("dep"))}, distinct_key=json.dumps(spec, sort_keys=True))
+              "types": len(symbols(spec)), "dep": bool(spec.get("dep")),
+              "subs": sorted({f["sub"] for f in spec["files"] if f.get("sub")})}, distinct_key=json.dumps(spec, sort_keys=True))
     spec_stats(ctx, spec)
     files = build_files(spec)
     dep_files = build_files(spec["dep"]) if spec.get("dep") else []
@@ -892,6 +1059,16 @@ def run_spec(ctx, r, spec, label, nvals=None):
             ctx.fail("generation-crash:" + derr[0], f"generator raised {derr[0]} on the dependency package: {derr[1]}", {"spec": spec["dep"]})
             return
     pypkg = ".".join(api.naming.module_namespace + (api.naming.versioned_module_name,))
+    # every file of the target package (and of its sub-packages) has its types module in the response
+    emitted = {x.name for x in res.file}
+    lost = [f for f in spec["files"] if py_types_package(pypkg, f.get("sub")).replace(".", "/") + f"/{f['name']}.py" not in emitted]
+    if lost:
+        for f in lost:
+            nested = (f.get("sub") or "").count(".") >= 1
+            ctx.fail("types-module-not-emitted" + (":nested-sub-package" if nested else ""),
+                     f"no types module is emitted for {proto_path(spec, f)} (package {file_pkg(spec, f)}): its messages and enums "
+                     f"have no class; expected {py_types_package(pypkg, f.get('sub')).replace('.', '/')}/{f['name']}.py", payload)
+        return
     codec = rpc.Codec(dep_files + files)
     nvals = nvals if nvals is not None else ctx.n(2, 4)
     trips = []
@@ -901,7 +1078,8 @@ def run_spec(ctx, r, spec, label, nvals=None):
             continue
         dyns = []
         for k in range(nvals):
-            v = rpc.rand_msg(vr, codec, full, p_set=0.45, force=[fl["name"] for fl in s["spec"]["fields"]] if k == 0 else ())
+            v = rpc.rand_msg(vr, codec, full, p_set=0.45, force=[fl["name"] for fl in s["spec"]["fields"]] if k == 0 else (),
+                             max_depth=7)
             dyn = codec.cls(full)()
             json_format.ParseDict(v, dyn, descriptor_pool=codec.pool)
             dyns.append(("random", dyn))
@@ -923,7 +1101,9 @@ def run_spec(ctx, r, spec, label, nvals=None):
     root = genrun.materialise(dep_res) if dep_res is not None else None
     root = genrun.materialise(res, root)
     try:
+        subs = sorted({f["sub"] for f in spec["files"] if f.get("sub")})
         out = libhost.run(root, [{"op": "types_session", "package": pypkg,
+                                  "types_packages": [py_types_package(pypkg, sub) for sub in subs],
                                   "roundtrips": [{k: t[k] for k in ("full", "b64", "json", "literal") if t[k] is not None}
                                                  for t in trips]}], timeout=600)[0]
     finally:
@@ -932,17 +1112,17 @@ def run_spec(ctx, r, spec, label, nvals=None):
         ctx.fail("session-failed", "types_session did not run: " + str(out)[-400:], payload)
         return
     model = ask(ctx, [model_module_op(spec, f) for f in spec["files"]])
-    compare(ctx, spec, syms, files, out, model, trips, codec, shadows, payload)
+    compare(ctx, spec, syms, files, out, model, trips, codec, shadows, payload, pypkg)
 
 
 def imports_module_named_proto(spec):
     """some file of the set refers to a type declared in a file of the package that is called proto.proto"""
     syms = symbols(spec)
     for full, s in syms.items():
-        if s["kind"] == "message" and s["file"] != "proto":
+        if s["kind"] == "message":
             for fl in s["spec"]["fields"]:
                 t = syms.get(fl.get("ref"))
-                if t is not None and t["file"] == "proto":
+                if t is not None and t["file"] == "proto" and fkey(t) != fkey(s):
                     return True
     return False
 
@@ -966,8 +1146,7 @@ def classify_import_error(err, shadows, spec=None):
     return "import-error:" + err["type"]
 
 
-def compare(ctx, spec, syms, files, out, model, trips, codec, shadows, payload):
-    pkg = spec["package"]
+def compare(ctx, spec, syms, files, out, model, trips, codec, shadows, payload, pypkg):
     shadow_set = {(a, b) for a, b, _ in shadows}
     # ---- model prediction of the import outcome
     pred_import = "ok"
@@ -990,29 +1169,48 @@ def compare(ctx, spec, syms, files, out, model, trips, codec, shadows, payload):
     want_msgs = {k for k, v in syms.items() if v["kind"] == "message"}
     got_msgs = {k for k, v in out["messages"].items()
                 if not _is_map_entry(v)}
-    for k in sorted(want_msgs - got_msgs):
-        ctx.fail("descriptor:missing-class", f"no emitted class for message {k}", payload)
-    for k in sorted(got_msgs - want_msgs):
-        ctx.fail("descriptor:extra-class", f"emitted class {k} has no input message", payload)
     want_enums = {k for k, v in syms.items() if v["kind"] == "enum"}
-    for k in sorted(want_enums - set(out["enums"])):
-        ctx.fail("descriptor:missing-class", f"no emitted class for enum {k}", payload)
-    for k in sorted(set(out["enums"]) - want_enums):
+
+    def home(s):
+        return py_types_package(pypkg, s["sub"]) + "." + s["file"], ".".join(s["path"])
+    # type identity: the class emitted at the place of an input type (module of its file, nesting path) IS that protobuf
+    # type, i.e. carries its full name (the name in type URLs of google.protobuf.Any, in error details, in JSON "@type")
+    at_home = {(rec["module"], rec["qualname"]): k for k, rec in list(out["messages"].items()) + list(out["enums"].items())}
+    renamed = set()
+    for k in sorted((want_msgs - got_msgs) | (want_enums - set(out["enums"]))):
+        got = at_home.get(home(syms[k]))
+        if got is not None and got not in syms:
+            renamed.add(got)
+            ctx.fail("descriptor:full-name", f"{syms[k]['kind']} {k} is emitted (in {home(syms[k])[0]}) as protobuf type {got}", payload)
+        else:
+            ctx.fail("descriptor:missing-class", f"no emitted class for {syms[k]['kind']} {k}", payload)
+    for k in sorted(got_msgs - want_msgs - renamed):
+        ctx.fail("descriptor:extra-class", f"emitted class {k} has no input message", payload)
+    for k in sorted(set(out["enums"]) - want_enums - renamed):
         ctx.fail("descriptor:extra-class", f"emitted enum {k} has no input enum", payload)
-    pypkg = out["modules"][0].rsplit(".types.", 1)[0] if out["modules"] else ""
-    # every top-level class is reachable as <package>.types.<Name>
-    ta = (out.get("types_all") or {}).get(f"{pypkg}.types")
-    if ta is not None:
-        tops = sorted(n for f in spec["files"] for n in [e["name"] for e in f["enums"]] + [m["name"] for m in f["messages"]])
-        lost = [n for n in tops if n not in ta["all"]] + list(ta["missing"])
-        if lost:
-            ctx.fail("types-init:not-exported", f"{pypkg}.types does not export {lost}", payload)
-    # manifests (T3 correspondence: the model's manifest vs the module's __protobuf__.manifest)
+    # every top-level class of a (sub-)package is reachable as <python package>[.<sub>].types.<Name>
+    for sub in sorted({f.get("sub") or "" for f in spec["files"]}):
+        tname = py_types_package(pypkg, sub)
+        ta = (out.get("types_all") or {}).get(tname)
+        if ta is not None:
+            tops = sorted(n for f in spec["files"] if (f.get("sub") or "") == sub
+                          for n in [e["name"] for e in f["enums"]] + [m["name"] for m in f["messages"]])
+            lost = [n for n in tops if n not in ta["all"]] + list(ta["missing"])
+            if lost:
+                ctx.fail("types-init:not-exported", f"{tname} does not export {lost}", payload)
+    # manifests and module headers (T3 correspondence: the model's manifest / proto.module(package=, marshal=) vs the
+    # module's __protobuf__)
     for f, mo in zip(spec["files"], model):
-        got = out["manifests"].get(f"{pypkg}.types.{f['name']}")
+        mname = py_types_package(pypkg, f.get("sub")) + "." + f["name"]
+        got = out["manifests"].get(mname)
         ctx.traces += 1
         if got != sorted(mo.get("manifest", [])):
-            ctx.disagree("T3:c02.manifest", f"module {f['name']}: manifest {got} vs model {sorted(mo.get('manifest', []))}", payload)
+            ctx.disagree("T3:c02.manifest", f"module {mname}: manifest {got} vs model {sorted(mo.get('manifest', []))}", payload)
+        hd = (out.get("headers") or {}).get(mname)
+        if hd is not None and "header" in mo:
+            ctx.traces += 1
+            if hd != mo["header"]:
+                ctx.disagree("T3:c02.module-header", f"module {mname}: proto.module(...) is {hd} at run time, model {mo['header']}", payload)
     by_full_input = {}
     for fpb in files:
         def walk(msgs, prefix):
@@ -1023,11 +1221,11 @@ def compare(ctx, spec, syms, files, out, model, trips, codec, shadows, payload):
     model_by_path = {}
     for f, mo in zip(spec["files"], model):
         for mm in mo.get("messages", []):
-            model_by_path[".".join([pkg] + mm["path"])] = mm
+            model_by_path[".".join([file_pkg(spec, f)] + mm["path"])] = mm
     for full in sorted(want_msgs & got_msgs):
         rec = out["messages"][full]
         s = syms[full]
-        if rec["module"] != f"{pypkg}.types.{s['file']}" or rec["qualname"] != ".".join(s["path"]):
+        if (rec["module"], rec["qualname"]) != home(s):
             ctx.fail("descriptor:nesting", f"{full} is emitted as {rec['module']}:{rec['qualname']}", payload)
         if rec["desc"] is None:
             ctx.fail("descriptor:no-runtime-descriptor", f"{full}: class has no protobuf descriptor (file never completed)", payload)
@@ -1047,8 +1245,8 @@ def compare(ctx, spec, syms, files, out, model, trips, codec, shadows, payload):
         want = sorted([n, v] for n, v in s["spec"]["values"])
         if got != want:
             ctx.fail("descriptor:enum-values", f"{full}: run-time values {got} != input {want}", payload)
-        if rec["qualname"] != ".".join(s["path"]):
-            ctx.fail("descriptor:nesting", f"enum {full} is emitted as {rec['qualname']}", payload)
+        if (rec["module"], rec["qualname"]) != home(s):
+            ctx.fail("descriptor:nesting", f"enum {full} is emitted as {rec['module']}:{rec['qualname']}", payload)
         if sorted(rec["members"]) != want:
             ctx.fail("descriptor:enum-values", f"{full}: python members {sorted(rec['members'])} != input {want}", payload)
         if bool(e.options.allow_alias) != bool(s["spec"].get("alias")):
@@ -1441,6 +1639,16 @@ def excluded_points():
              {"name": "Thing", "oneofs": [], "messages": [], "enums": [], "fields": [{"name": "id", "number": 1, "card": "single", "type": "string"}]}]}]},
           "files": [{"name": "alpha", "enums": [], "messages": [{"name": "A", "oneofs": [], "messages": [], "enums": [], "fields": [
               {"name": "thing", "number": 1, "card": "single", "type": "message", "ref": "acme.lib.v1beta.Thing"}]}]}]}),
+        ("package-level-import-cycle", "root package -> sub-package and sub-package -> root package references in one API (no cycle between "
+         "FILES): <root>/__init__.py imports the sub-package first, its types module imports <root>.types, whose __init__ imports every "
+         "root module, one of which reads a class of the half-initialised sub-package module",
+         {"package": P, "files": [
+             {"name": "base", "enums": [], "messages": [{"name": "Base", "oneofs": [], "messages": [], "enums": [], "fields": [
+                 {"name": "id", "number": 1, "card": "single", "type": "string"}]}]},
+             {"name": "items", "sub": "catalog", "enums": [], "messages": [{"name": "Item", "oneofs": [], "messages": [], "enums": [], "fields": [
+                 {"name": "base", "number": 1, "card": "single", "type": "message", "ref": P + ".Base"}]}]},
+             {"name": "order", "enums": [], "messages": [{"name": "Order", "oneofs": [], "messages": [], "enums": [], "fields": [
+                 {"name": "item", "number": 1, "card": "single", "type": "message", "ref": P + ".catalog.Item"}]}]}]}),
     ]
 
 
@@ -1460,7 +1668,10 @@ def run_excluded(ctx):
 
 
 def run(ctx):
-    ctx.rule = ("file sets of one package: 1..3 files, messages nested to depth <= 4, every scalar type, enums (aliases, unsorted "
+    ctx.rule = ("file sets of one API package: 1..5 files, in ~40% of the cases spread over the API package and 1-4 SUB-PACKAGES of it "
+                "(one, two or three levels down, with or without files at the intermediate levels; references root -> sub, sub -> root, sub -> sub, "
+                "parent <-> child sub-package; same module name / same top-level "
+                "type name in two packages), messages nested to depth <= 4, every scalar type, enums (aliases, unsorted "
                 "numbers), repeated / proto3-optional / oneof members / maps over every legal key type, references to self, "
                 "ancestors, descendants, later and earlier types of the file, other files of the package and dependency "
                 "packages (google.protobuf / google.rpc / google.type / google.api / google.longrunning), names from pools of "
@@ -1477,8 +1688,12 @@ def run(ctx):
                "target-package module names do not end in _pb2 (DESIGN 7.2 forced hypothesis)")
     ctx.assume("no field carries the alias the generator derives for a colliding module (<package initials>_<module>), "
                "the name <module>_pb2 of an imported dependency module, or the name of a Python builtin used as a bare class name")
-    ctx.assume("one proto package per target library (no sub-packages: their `marshal=` branch is reached only by the excluded point "
-               "dependency-package-with-api-prefix); dependency packages outside google.* are proto-plus packages listed in proto-plus-deps")
+    ctx.assume("the target files lie in the API's proto package or in sub-packages of it, at least one of them in the API package itself "
+               "(the API package is the common prefix of the target files' packages); the references BETWEEN these packages form no cycle "
+               "(a sub-package that needs a type of the root package while the root package needs a type of that sub-package, directly or "
+               "through another sub-package, is legal for protoc but makes the emitted python packages import each other through their "
+               "eager types/__init__.py: excluded point package-level-import-cycle); "
+               "dependency packages outside google.* are proto-plus packages listed in proto-plus-deps")
     ctx.assume("valuations with a repeated or map field of google.protobuf.Value/ListValue/Struct are not written as literal dicts "
                "(proto-plus reads a list/dict given for those types as one value); they still go through bytes and JSON")
     ctx.assume("no field is named <reserved word>_ next to a field named <reserved word> (protoc rejects the JSON-name conflict)")
@@ -1489,6 +1704,7 @@ def run(ctx):
         run_spec(ctx, r, payload["spec"], "corpus:" + fn)
     run_spec(ctx, r, coverage_spec(), "coverage", nvals=ctx.n(3, 8))
     run_spec(ctx, r, layout_spec(), "layout", nvals=ctx.n(3, 8))
+    run_spec(ctx, r, subpackage_spec(), "subpackages", nvals=ctx.n(3, 8))
     n = ctx.n(40, 500)
     for i in range(n):
         run_spec(ctx, r, gen_spec(r, big=(i % 5 == 4)), f"gen{i}")
@@ -1519,12 +1735,16 @@ CLAIM = dict(
           "JSON-name uniqueness, invisible in the lowerCamel JSON name, and invertible; (3) enum values survive as a multiset (in order "
           "when sorted); (4) same-module type references resolve to the referenced type under Python class-body scoping for every "
           "nesting/forward/recursive/shadowed shape (rel_resolves; the former defect X.A -> A.B is a regression theorem and corpus input); (5) the "
-          "manifest lists exactly the top-level classes. Tie: T1 bridge of RESERVED_NAMES and keyword.kwlist; T2 real Field.name, "
+          "manifest lists exactly the top-level classes; (6) the module header registers the types in the proto package of THEIR file, "
+          "also for files of a sub-package of the API package, all modules sharing the API package's marshal (module_header_package, "
+          "module_marshal_shared, module_types_full_name). Tie: T1 bridge of RESERVED_NAMES and keyword.kwlist; T2 real Field.name, "
           "proto_type, Address.rel/__str__/module_alias/python_import, ToJsonName via DescriptorPool; T3 the run-time descriptor of "
           "EVERY emitted class (fresh interpreter) vs the model's predicted FieldDescriptorProtos; model-independent oracle: run-time "
           "descriptor = input descriptor aspect by aspect, two-way binary round trips and to_json/from_json against dynamic messages "
           "built from the input files, each valuation also written as a literal dict / keyword arguments / attribute assignments "
-          "(a wrongly bound type cannot hide in unknown fields) and with explicit-presence scalars set to zero. Also modelled and "
+          "(a wrongly bound type cannot hide in unknown fields) and with explicit-presence scalars set to zero; type identity: the class "
+          "at the place of an input type carries its full name, every target file (root package or sub-package) has its types module. "
+          "Also modelled and "
           "T2-compared: _get_fields' oneof lookup (oneof_membership_preserved, any number of members), the orphan-field pass "
           "(resolution_order_irrelevant), is_proto_plus_type incl. proto-plus-deps and python_import packages."),
     technique="Lean 4 theorems (declaration round trip, naming algebra over the bridged tables, Python-scoping resolution of Address.rel) + differential T2/T3 on run-time descriptors + round-trip oracle",
